@@ -98,9 +98,9 @@ func runC07(c *core.Ctx) {
 		c.Decide(isC && k == want, "C07-TEMPLATE", "encodeAndSplitGSM7Packed#capacity", ppos, fmt.Sprintf("parts hold at most %d septets", want),
 			fmt.Sprintf("the packed splitter cuts by %d (constant: %v) instead of SplitBy153=%d", k, isC, want))
 	}
-	headerRule(c, "splitWithUDHI", g.fn, g.header, g.idx, g.msgCount, nil)
+	headerRule(c, "splitWithUDHI", g.fn, g.header, valueOrNil(g.idx), func(v ssa.Value) bool { return v != nil && g.msgCount != nil && v == g.msgCount }, nil)
 	var twinFact []prover.Fact
-	headerRule(c, "encodeAndSplitGSM7Packed", pk.fn, pk.header, pk.idx, valueOrNil(pk.msgCount), func(p *prover.F) []prover.Fact {
+	headerRule(c, "encodeAndSplitGSM7Packed", pk.fn, pk.header, pk.idxV, pk.countIs, func(p *prover.F) []prover.Fact {
 		if pk.twin && pk.msgCount != nil && pk.idx != nil {
 			// both loops iterate the same recurrence from the same start, so the cutting loop's index stays below the count
 			twinFact = []prover.Fact{{L: p.LinOf(pk.msgCount).Add(p.LinOf(pk.idx), -1).Add(prover.Const(1), -1), Why: "twin loops: idx < msgCount"}}
@@ -209,7 +209,7 @@ func ceilRule(c *core.Ctx, g *genericSplit) {
 }
 
 // headerRule: 05 00 03 ref total seq, and both conversions provably <= 255.
-func headerRule(c *core.Ctx, name string, fn *ssa.Function, hdr []ssa.Value, idx *ssa.Phi, count ssa.Value, extra func(*prover.F) []prover.Fact) {
+func headerRule(c *core.Ctx, name string, fn *ssa.Function, hdr []ssa.Value, idx ssa.Value, countIs func(ssa.Value) bool, extra func(*prover.F) []prover.Fact) {
 	if fn == nil {
 		c.Broken("C07-HDR", name, "splitter not found")
 		return
@@ -243,7 +243,7 @@ func headerRule(c *core.Ctx, name string, fn *ssa.Function, hdr []ssa.Value, idx
 	}
 	totalV, totalC := conv(hdr[4])
 	seqV, seqC := conv(hdr[5])
-	if totalV == nil || count == nil || totalV != count {
+	if totalV == nil || !countIs(totalV) {
 		problems = append(problems, "header octet 4 is not byte(number of parts)")
 	}
 	if seqV == nil || idx == nil || !isAddOne(seqV, idx) {
@@ -271,7 +271,7 @@ func headerRule(c *core.Ctx, name string, fn *ssa.Function, hdr []ssa.Value, idx
 		if !ok {
 			continue
 		}
-		if bo, ok := binop(ifi.Cond, token.GTR); ok && count != nil && bo.X == count {
+		if bo, ok := binop(ifi.Cond, token.GTR); ok && countIs(bo.X) {
 			if k, ok := constInt(bo.Y); ok && k == 255 {
 				if ret, ok := b.Succs[0].Instrs[len(b.Succs[0].Instrs)-1].(*ssa.Return); ok {
 					last := ret.Results[len(ret.Results)-1]
